@@ -557,12 +557,22 @@ class SVal:
         env[st.target.id] = found
         return env, pc
 
-    def loop(self, st, env, pc):
+    def loop(self, st, env, pc, it_override=None):
         if (isinstance(st, ast.For) and isinstance(st.target, ast.Name) and len(st.body) == 1 and isinstance(st.body[0], ast.If)
                 and not st.body[0].orelse and len(st.body[0].body) == 1 and isinstance(st.body[0].body[0], ast.Break)):
             return self._search_loop(st, env, pc)
         lid = self._new_id()
         it = self.ev(st.iter, env, pc) if isinstance(st, ast.For) else None
+        if it_override is not None:
+            it = it_override
+        if it is not None and not getattr(st, 'orelse', None):
+            # `for x in (X if c else [])`, also spelt `for i in range(len(X if c else []))`: the loop over X, run when c holds
+            g = _gated_iter(it)
+            if g is not None:
+                c, x_then = g
+                r = self.loop(st, dict(env), pc + ((c, True),), it_override=x_then)
+                if r is not None:
+                    return self.merge(c, r[0], dict(env)), pc
         stored = set()
         for s in st.body:
             for x in walk_no_nested(s):
@@ -648,6 +658,8 @@ class SVal:
             lo = args[0] if len(args) == 2 else const(0)
             if hi is not None and lo == const(0) and hi[0] == 'call' and hi[1] == 'builtins.len':
                 seq = dict(hi[3]).get('#0', UNDEF)
+                if seq[0] == 'call' and seq[1] in ('builtins.list', 'builtins.tuple') and len(seq[3]) == 1:
+                    seq = seq[3][0][1]          # positions of a copy are positions of the original
                 self.assign(target, ('idx', seq, lid), env, pc, st)
                 return seq
         if it[0] == 'call' and it[1] in ('method.items',) and isinstance(target, (ast.Tuple, ast.List)) and len(target.elts) == 2:
@@ -772,7 +784,19 @@ class SVal:
             return const(e.value)
         if isinstance(e, ast.Name):
             if e.id in env:
-                return env[e.id]
+                t = env[e.id]
+                # a value that was chosen by a test this path has already decided
+                n = 0
+                while t[0] == 'cond' and n < 8:
+                    n += 1
+                    d = next((val for a, val in pc if a == t[1]), None)
+                    if d is None and t[1][0] == 'not':
+                        d0 = next((val for a, val in pc if a == t[1][1]), None)
+                        d = None if d0 is None else (not d0)
+                    if d is None:
+                        break
+                    t = t[2] if d else t[3]
+                return t
             return self._global(e.id)
         if isinstance(e, ast.Attribute):
             k = _key(e)
@@ -1147,6 +1171,26 @@ def _key(node):
     return attr_chain(node)
 
 
+def _gated_iter(it):
+    """(c, X) when the iterable term is `X if c else <empty literal>` - directly, or as range(len(...)) of it; None otherwise"""
+    def empty(t):
+        return t[0] in ('list', 'tuple') and not t[1]
+    if it[0] == 'cond' and empty(it[3]) and not empty(it[2]):
+        return it[1], it[2]
+    if it[0] == 'cond' and empty(it[2]) and not empty(it[3]):
+        return mk_not(it[1]), it[3]
+    if it[0] == 'call' and it[1] == 'builtins.range':
+        args = [t for _, t in it[3]]
+        hi = args[-1] if len(args) in (1, 2) else None
+        lo = args[0] if len(args) == 2 else const(0)
+        if hi is not None and lo == const(0) and hi[0] == 'call' and hi[1] == 'builtins.len' and len(hi[3]) == 1:
+            g = _gated_iter(hi[3][0][1])
+            if g is not None:
+                inner = ('call', 'builtins.len', hi[2], ((hi[3][0][0], g[1]),)) + tuple(hi[4:])
+                return g[0], ('call', 'builtins.range', it[2], tuple((k, (inner if t is hi else t)) for k, t in it[3])) + tuple(it[4:])
+    return None
+
+
 def _conditional(item):
     return isinstance(item, tuple) and item and item[0] in ('when', 'each')
 
@@ -1186,6 +1230,11 @@ def mk_attr(b, name):
 def mk_index(b, i):
     if i[0] == 'idx' and i[1] == b:
         return ('elem', b, i[2])
+    if i[0] == 'idx' and b[0] == 'call' and b[1] in ('builtins.list', 'builtins.tuple') and len(b[3]) == 1 and b[3][0][1] == i[1]:
+        return ('elem', i[1], i[2])       # the i-th element of a copy of X is the i-th element of X
+    # (key, value) pairs of a mapping's items()
+    if b[0] == 'elem' and b[1][0] == 'call' and b[1][1] == 'method.items' and is_const(i) and cval(i) in (0, 1) and not isinstance(cval(i), bool):
+        return ('key' if cval(i) == 0 else 'value', b[1][2], b[2])
     if b[0] in ('tuple', 'list') and is_const(i) and isinstance(cval(i), int) and not isinstance(cval(i), bool):
         items = b[1]
         if not any(isinstance(x, tuple) and x and x[0] in ('when', 'each', 'star', 'acc') for x in items):
